@@ -12,11 +12,11 @@ import (
 func init() {
 	register(&PropDef{
 		ID: "C12", Level: "exploration", Quick: 24000, Thorough: 400000, QuickCap: 100,
-		Rule: "each run = one engine, a drawn server clock, 2-25 steps on 3 rows: mutations that evolve the row state, then CheckAndMutateRow with a predicate from the C05 filter generator (trees up to depth 2 incl. ones that strip every cell, offsets past the end, invalid arguments; or no predicate) and true/false mutation lists (valid, invalid at position k, empty); oracles: (1) metamorphic - predicate_matched equals 'ReadRows with the same filter restricted to that row returns a cell' evaluated in the same state, (2) the independent evaluator agrees, (3) exactly the selected list is applied per the data model and nothing else changes (full read-back), invalid predicate or selected mutation => error and row unchanged; distinct = hash of (engine, predicate shapes, branch outcomes); non-trivial = at least one CAM whose predicate is a composite or which selected the false branch",
-		Real: []string{"bttest CheckAndMutateRow, filterRow, applyMutations, ReadRows", "all engines"},
-		Stub: []string{"gRPC transport", "server clock"},
+		Rule:   "each run = one engine, a drawn server clock, 2-25 steps on 3 rows: mutations that evolve the row state, then CheckAndMutateRow with a predicate from the C05 filter generator (trees up to depth 2 incl. ones that strip every cell, offsets past the end, invalid arguments; or no predicate) and true/false mutation lists (valid, invalid at position k, empty); oracles: (1) metamorphic - predicate_matched equals 'ReadRows with the same filter restricted to that row returns a cell' evaluated in the same state, (2) the independent evaluator agrees, (3) exactly the selected list is applied per the data model and nothing else changes (full read-back), invalid predicate or selected mutation => error and row unchanged; distinct = hash of (engine, predicate shapes, branch outcomes); non-trivial = at least one CAM whose predicate is a composite or which selected the false branch",
+		Real:   []string{"bttest CheckAndMutateRow, filterRow, applyMutations, ReadRows", "all engines"},
+		Stub:   []string{"gRPC transport", "server clock"},
 		Assume: []string{"row-sample filters are not used in predicates (the metamorphic read would draw differently)", "error codes are not compared"},
-		Run: runC12,
+		Run:    runC12,
 	})
 	expectedProbes["C12"] = []string{"c12.matched_true", "c12.matched_false", "c12.no_predicate", "c12.pred_strips_all", "c12.invalid_predicate", "c12.invalid_selected_branch", "c12.invalid_unselected_branch", "c12.absent_row"}
 }
